@@ -26,7 +26,7 @@ func vCheckAgreement(a, b *Association, ilA, ilB, zA, zB bool) {
 	vassert(a.useInterleaving == (ilA && ilB) && b.useInterleaving == (ilA && ilB), "interleaving is on exactly when both enabled it")
 	vassert(a.useIForwardTSN == a.useInterleaving && b.useIForwardTSN == b.useInterleaving, "the forward-TSN variant matches interleaving")
 	vassert(a.useForwardTSN == !a.useInterleaving && b.useForwardTSN == !b.useInterleaving, "plain FORWARD-TSN otherwise")
-	vassert(a.sendZeroChecksum == zB && b.sendZeroChecksum == zA, "each side sends zero checksums only if the other declared them acceptable")
+	vassert(a.sendZeroChecksum == zB && b.sendZeroChecksum == zA, "each side sends zero checksums only if the other declared them acceptable with the DTLS method")
 	vassert(a.peerLastTSN() == b.myNextTSN-1 && b.peerLastTSN() == a.myNextTSN-1, "each side expects the peer's initial TSN")
 	vassert(a.peerVerificationTag == b.myVerificationTag && b.peerVerificationTag == a.myVerificationTag, "verification tags agree")
 	vassert(a.maxPayloadSize == b.maxPayloadSize, "both sides fragment to the same payload size")
@@ -200,22 +200,28 @@ func vh_C04_L3_bounded_retries() {
 
 // C04.L1c / C13.L3: establishment from exchanged out-of-band INIT tokens (SNAP). Each
 // side is given its own INIT and the peer's; all 2^4 option combinations.
-func vSNAPInit(il, zc bool) *chunkInit {
+func vSNAPInit(il bool, zc int) *chunkInit {
 	init := &chunkInit{}
 	init.initialTSN = nondetU32()
 	init.numOutboundStreams, init.numInboundStreams = 65535, 65535
 	init.initiateTag = 1 + nondetU32()%0xfffffffe
 	init.advertisedReceiverWindowCredit = 2048 + uint32(nondetU16())*16 // each side advertises its own window
 	setSupportedExtensions(&init.chunkInitCommon, il)
-	if zc {
+	switch zc {
+	case 1:
 		init.params = append(init.params, &paramZeroChecksumAcceptable{edmid: dtlsErrorDetectionMethod})
+	case 2: // acceptable with some other error detection method than DTLS: not an offer this stack can use
+		other := nondetU32()
+		vassume(other != dtlsErrorDetectionMethod)
+		init.params = append(init.params, &paramZeroChecksumAcceptable{edmid: other})
 	}
 	return init
 }
 
 func vh_C04_L1_snap_tokens() {
-	ilA, ilB, zA, zB := vPick(2) == 1, vPick(2) == 1, vPick(2) == 1, vPick(2) == 1
-	initA, initB := vSNAPInit(ilA, zA), vSNAPInit(ilB, zB)
+	ilA, ilB, zmA, zmB := vPick(2) == 1, vPick(2) == 1, vPick(3), vPick(3)
+	zA, zB := zmA == 1, zmB == 1 // zero checksums declared acceptable with the DTLS method (2: with another method)
+	initA, initB := vSNAPInit(ilA, zmA), vSNAPInit(ilB, zmB)
 	// with SNAP the tokens are the whole negotiation: what the association itself was created
 	// with (possibly other options than its token was generated with) does not change it
 	cfgMatches := vPick(2) == 1
@@ -233,7 +239,7 @@ func vh_C04_L1_snap_tokens() {
 	vassert(a.useInterleaving == (ilA && ilB) && b.useInterleaving == (ilA && ilB), "interleaving is on exactly when both enabled it")
 	vassert(a.useIForwardTSN == a.useInterleaving && b.useIForwardTSN == b.useInterleaving, "the forward-TSN variant matches interleaving")
 	vassert(a.useForwardTSN == !a.useInterleaving && b.useForwardTSN == !b.useInterleaving, "plain FORWARD-TSN otherwise: partial reliability stays available on both sides")
-	vassert(a.sendZeroChecksum == zB && b.sendZeroChecksum == zA, "each side sends zero checksums only if the other declared them acceptable")
+	vassert(a.sendZeroChecksum == zB && b.sendZeroChecksum == zA, "each side sends zero checksums only if the other declared them acceptable with the DTLS method")
 	vassert(a.peerLastTSN() == initB.initialTSN-1 && b.peerLastTSN() == initA.initialTSN-1, "each side expects the peer's initial TSN")
 	vassert(a.RWND() == initB.advertisedReceiverWindowCredit && b.RWND() == initA.advertisedReceiverWindowCredit, "each side starts with the receive window the peer's token advertises")
 	vassert(a.peerVerificationTag == initB.initiateTag && b.peerVerificationTag == initA.initiateTag, "verification tags come from the peer's token")
